@@ -111,11 +111,11 @@ Proof.
 Qed.
 
 (* ---------- histories of reloads and selections ---------- *)
-Lemma run_cons : forall rl held e r,
-  run rl held (e :: r) = (snd (step rl held e) :: fst (run rl (fst (step rl held e)) r),
-                          snd (run rl (fst (step rl held e)) r)).
+Lemma lrun_cons : forall rl held e r,
+  lrun rl held (e :: r) = (snd (lstep rl held e) :: fst (lrun rl (fst (lstep rl held e)) r),
+                          snd (lrun rl (fst (lstep rl held e)) r)).
 Proof.
-  intros. cbn [run]. destruct (step rl held e) as [h1 o]. cbn [fst snd]. destruct (run rl h1 r) as [os h2]. reflexivity.
+  intros. cbn [lrun]. destruct (lstep rl held e) as [h1 o]. cbn [fst snd]. destruct (lrun rl h1 r) as [os h2]. reflexivity.
 Qed.
 
 Lemma loads_wellkeyed_tail : forall e r, loads_wellkeyed (e :: r) -> loads_wellkeyed r.
@@ -132,9 +132,9 @@ Lemma station_select_in_force : forall pre f0 held seed g lv fam post,
 Proof.
   unfold station_run.
   induction pre as [|e pre IH]; intros f0 held seed g lv fam post Hh Hw.
-  - cbn [app length]. rewrite run_cons. cbn [fst nth_error step snd in_force]. unfold sel_select. rewrite Hh. reflexivity.
-  - cbn [app length]. rewrite run_cons. cbn [fst nth_error].
-    destruct e as [[f|]|s' g' lv' fam']; cbn [step fst reload_replace in_force].
+  - cbn [app length]. rewrite lrun_cons. cbn [fst nth_error lstep snd in_force]. unfold sel_select. rewrite Hh. reflexivity.
+  - cbn [app length]. rewrite lrun_cons. cbn [fst nth_error].
+    destruct e as [[f|]|s' g' lv' fam']; cbn [lstep fst reload_replace in_force].
     + apply IH; [|eapply loads_wellkeyed_tail; exact Hw].
       intro g0. apply from_file_lookup. apply Hw. left. reflexivity.
     + apply IH; [exact Hh|eapply loads_wellkeyed_tail; exact Hw].
@@ -148,8 +148,8 @@ Lemma station_held_in_force : forall evs f0 held,
 Proof.
   unfold station_run.
   induction evs as [|e r IH]; intros f0 held Hh Hw g; [apply Hh|].
-  rewrite run_cons. cbn [snd].
-  destruct e as [[f|]|s' g' lv' fam']; cbn [step fst reload_replace in_force].
+  rewrite lrun_cons. cbn [snd].
+  destruct e as [[f|]|s' g' lv' fam']; cbn [lstep fst reload_replace in_force].
   - apply IH; [|eapply loads_wellkeyed_tail; exact Hw]. intro g0. apply from_file_lookup. apply Hw. left. reflexivity.
   - apply IH; [exact Hh|eapply loads_wellkeyed_tail; exact Hw].
   - apply IH; [exact Hh|eapply loads_wellkeyed_tail; exact Hw].
@@ -163,9 +163,9 @@ Lemma station_select_fresh : forall pre f0 seed g lv fam post,
 Proof.
   unfold station_run.
   induction pre as [|e pre IH]; intros f0 seed g lv fam post.
-  - cbn [app length]. rewrite run_cons. reflexivity.
-  - cbn [app length]. rewrite run_cons. cbn [fst nth_error].
-    destruct e as [[f|]|s' g' lv' fam']; cbn [step fst reload_replace in_force]; apply IH.
+  - cbn [app length]. rewrite lrun_cons. reflexivity.
+  - cbn [app length]. rewrite lrun_cons. cbn [fst nth_error].
+    destruct e as [[f|]|s' g' lv' fam']; cbn [lstep fst reload_replace in_force]; apply IH.
 Qed.
 
 (* the property over the station's lifetime *)
@@ -285,3 +285,35 @@ Lemma reload_linearizable : forall f0 t pre seed g lv fam post,
           | None => None
           end).
 Proof. intros. apply reload_linearizable_gen. apply cinit_inv. Qed.
+
+Lemma station_held_in_force0 : forall evs f0, wellkeyed f0 -> loads_wellkeyed evs ->
+  forall g, lookup (snd (station_run (from_file f0) evs)) g = file_lookup (in_force f0 evs) g.
+Proof. intros evs f0 Hf Hw g. apply station_held_in_force; [apply from_file_lookup; exact Hf|exact Hw]. Qed.
+
+(* a selection in flight during reloads answers from the configuration that was in force when it fetched the
+   selector: containment and the unknown-generation error follow for that configuration *)
+Lemma reload_linearizable_sound : forall f0 t pre seed g lv fam post F r,
+  force_at_fetch f0 None t pre = Some F -> wellkeyed F ->
+  nth_error (fst (crun false (cinit f0) (pre ++ CSelect t seed g lv fam :: post))) (length pre) = Some (Some r) ->
+  r = select seed (file_lookup F g) lv fam /\ r <> Panic /\
+  (file_lookup F g = None -> exists e, r = Err e) /\
+  (forall p, r = Ok p -> exists cfg grp c, file_lookup F g = Some cfg /\ In grp cfg /\ In c (group_cidrs grp) /\
+                                          contains c fam (be_to_N (p_bytes p)) /\ p_rand_port p = rand_port grp).
+Proof.
+  intros f0 t pre seed g lv fam post F r HF Hw H.
+  rewrite reload_linearizable, HF in H.
+  assert (Hr : r = select seed (file_lookup F g) lv fam).
+  { unfold sel_select in H. rewrite (from_file_lookup F Hw) in H. congruence. }
+  split; [exact Hr|]. split; [rewrite Hr; apply select_never_panics|]. split.
+  - intro Hn. rewrite Hr, Hn. apply select_unknown_generation.
+  - intros p Hp. rewrite Hr in Hp. destruct (file_lookup F g) as [cfg|] eqn:E.
+    + destruct (select_contained _ _ _ _ _ Hp) as [grp [c [Hg [Hc [Hcont Hrp]]]]].
+      exists cfg, grp, c. repeat split; try assumption; apply Hcont.
+    + destruct (select_unknown_generation seed lv fam) as [e He]. rewrite He in Hp. discriminate.
+Qed.
+
+Lemma station_select_pure0 : forall pre f0 seed g lv fam post,
+  wellkeyed f0 -> loads_wellkeyed pre ->
+  nth_error (fst (station_run (from_file f0) (pre ++ ESelect seed g lv fam :: post))) (length pre)
+  = Some (Some (select seed (file_lookup (in_force f0 pre) g) lv fam)).
+Proof. intros. apply station_select_in_force; [apply from_file_lookup; assumption|assumption]. Qed.
